@@ -100,7 +100,15 @@ Definition access_model (inp : list N) : list N :=
         match rk with
         | 0 => Ok (KOwned, parent)
         | 1 => v <- view_of KOwned false parent s0 s1 e0 e1 ;; Ok (KView, v)
-        | _ => v <- view_of KOwned true parent s0 s1 e0 e1 ;; Ok (KViewMut, v)
+        | 2 => v <- view_of KOwned true parent s0 s1 e0 e1 ;; Ok (KViewMut, v)
+        (* nested receivers: the window is cut from an outer window (1,1)-(C,R), narrower
+           than the root: 3 view_mut of view_mut, 4 view of view_mut, 5 view of view *)
+        | 3 => o <- view_of KOwned true parent 1 1 (N.of_nat C) (N.of_nat R) ;;
+               v <- view_of KViewMut true o s0 s1 e0 e1 ;; Ok (KViewMut, v)
+        | 4 => o <- view_of KOwned true parent 1 1 (N.of_nat C) (N.of_nat R) ;;
+               v <- view_of KViewMut false o s0 s1 e0 e1 ;; Ok (KView, v)
+        | _ => o <- view_of KOwned false parent 1 1 (N.of_nat C) (N.of_nat R) ;;
+               v <- view_of KView false o s0 s1 e0 e1 ;; Ok (KView, v)
         end in
       match recv with
       | Ok (k, v) =>
